@@ -74,6 +74,15 @@ def check(ctx) -> None:
     r122(ctx)
     r124(ctx)
     r125(ctx)
+    from . import c17
+    before = len(ctx.rules)
+    c17.r175(ctx)
+    r = ctx.rules[before]
+    r.id = 'R12.6'
+    r.title = 'a read-only selection never receives new messages\' ' \
+              '\\Recent (= R17.5)'
+    for i in r.instances:
+        i.rule = 'R12.6'
 
 
 def r121(ctx) -> None:
